@@ -270,3 +270,167 @@ example :
     wellLinkedB "/t/{tenant}" m = true := by decide +kernel
 
 end Gleece.Validate
+
+/-! ### the converse for the parameter pass and the return-type pass -/
+namespace Gleece.Validate
+
+/-- the declared type suits the location (the property's "non-body parameters are primitives, enums or primitive
+    aliases (slices only in query)"; a body is anything but a bare builtin) -/
+def typeOk (env : TypeEnv) (p : MParam) (loc : PassedIn) : Bool :=
+  if loc = .body then !(isBuiltinType p.type && !isIterable p.type)
+  else !(isIterable p.type && loc ≠ .query) && isPrimitiveLike env p.type
+
+/-- the locations of the bound, non-context parameters, in signature order -/
+def locsOf (m : Method) (ps : List MParam) : List PassedIn :=
+  ps.filterMap fun p => if isContextType p.type then none else
+    match passedInOf m.annots p.name with
+    | some (.ok loc) => some loc
+    | _ => none
+
+/-- at most one body, never a body together with form fields -/
+def comboOk (locs : List PassedIn) : Bool :=
+  decide ((locs.filter (· = .body)).length ≤ 1) && !(locs.contains .body && locs.contains .form)
+
+theorem validateParams_go_complete (env : TypeEnv) (m : Method) (ps : List MParam) : ∀ (seen : List PassedIn),
+    (∀ p ∈ ps, isContextType p.type = false → ∀ e, passedInOf m.annots p.name ≠ some (.error e)) →
+    (∀ p ∈ ps, isContextType p.type = false → ∀ loc, passedInOf m.annots p.name = some (.ok loc) → typeOk env p loc = true) →
+    comboOk (seen ++ locsOf m ps) = true →
+    validateParams.go env m ps seen = some [] := by
+  induction ps with
+  | nil => intro seen _ _ _; simp [validateParams.go]
+  | cons q rest ih =>
+    intro seen hnoerr htype hcombo
+    unfold validateParams.go
+    by_cases hq : isContextType q.type = true
+    · simp only [hq, if_true]
+      apply ih seen (fun p hp => hnoerr p (by simp [hp])) (fun p hp => htype p (by simp [hp]))
+      simpa [locsOf, hq] using hcombo
+    · have hq' : isContextType q.type = false := by simpa using hq
+      simp only [hq', Bool.false_eq_true, if_false]
+      cases hpi : passedInOf m.annots q.name with
+      | none =>
+        simp only
+        apply ih seen (fun p hp => hnoerr p (by simp [hp])) (fun p hp => htype p (by simp [hp]))
+        simpa [locsOf, hq', hpi] using hcombo
+      | some res =>
+        cases res with
+        | error e => exact absurd hpi (hnoerr q (by simp) hq' e)
+        | ok loc =>
+          simp only
+          have hty := htype q (by simp) hq' loc hpi
+          have hlocs : locsOf m (q :: rest) = loc :: locsOf m rest := by simp [locsOf, hq', hpi]
+          rw [hlocs] at hcombo
+          have hrec := ih (seen ++ [loc]) (fun p hp => hnoerr p (by simp [hp])) (fun p hp => htype p (by simp [hp]))
+            (by simpa [List.append_assoc] using hcombo)
+          rw [hrec]
+          -- the two diagnostics of this parameter are empty
+          unfold comboOk at hcombo
+          simp only [Bool.and_eq_true, decide_eq_true_eq, Bool.not_eq_true', Bool.and_eq_false_iff] at hcombo
+          obtain ⟨hcount, hnot⟩ := hcombo
+          unfold typeOk at hty
+          cases loc with
+          | body =>
+            simp only [if_true] at hty
+            have hsb : seen.contains PassedIn.body = false := by
+              cases h : seen.contains PassedIn.body with
+              | false => rfl
+              | true =>
+                exfalso
+                have hm : PassedIn.body ∈ seen := List.contains_iff_mem.1 h
+                have : 2 ≤ ((seen ++ PassedIn.body :: locsOf m rest).filter (· = PassedIn.body)).length := by
+                  rw [List.filter_append, List.length_append]
+                  have h1 : 1 ≤ (seen.filter (· = PassedIn.body)).length :=
+                    List.length_pos_of_mem (List.mem_filter.2 ⟨hm, by simp⟩)
+                  have h2 : 1 ≤ ((PassedIn.body :: locsOf m rest).filter (· = PassedIn.body)).length := by
+                    simp [List.filter_cons]
+                  omega
+                omega
+            have hsf : seen.contains PassedIn.form = false := by
+              cases h : seen.contains PassedIn.form with
+              | false => rfl
+              | true =>
+                exfalso
+                have hm : PassedIn.form ∈ seen := List.contains_iff_mem.1 h
+                rcases hnot with h1 | h1
+                · have : (seen ++ PassedIn.body :: locsOf m rest).contains PassedIn.body = true := by simp
+                  rw [this] at h1; cases h1
+                · have : (seen ++ PassedIn.body :: locsOf m rest).contains PassedIn.form = true := by
+                    apply List.contains_iff_mem.2; simp [hm]
+                  rw [this] at h1; cases h1
+            have hb : (isBuiltinType q.type && !isIterable q.type) = false := by
+              cases h : (isBuiltinType q.type && !isIterable q.type) with
+              | false => rfl
+              | true => rw [h] at hty; cases hty
+            simp only [hb, hsb, hsf, Bool.false_eq_true, if_false, if_true, Bool.or_false, List.nil_append, Option.map_some]
+            simp
+          | form =>
+            have hsb : seen.contains PassedIn.body = false := by
+              cases h : seen.contains PassedIn.body with
+              | false => rfl
+              | true =>
+                exfalso
+                have hm : PassedIn.body ∈ seen := List.contains_iff_mem.1 h
+                rcases hnot with h1 | h1
+                · have : (seen ++ PassedIn.form :: locsOf m rest).contains PassedIn.body = true := by
+                    apply List.contains_iff_mem.2; simp [hm]
+                  rw [this] at h1; cases h1
+                · have : (seen ++ PassedIn.form :: locsOf m rest).contains PassedIn.form = true := by simp
+                  rw [this] at h1; cases h1
+            simp_all
+          | query => simp_all
+          | header => simp_all
+          | path => simp_all
+
+/-- **the parameter pass accepts every route whose parameters suit their locations** -/
+theorem validateParams_complete (env : TypeEnv) (m : Method)
+    (hnoerr : ∀ p ∈ m.params, isContextType p.type = false → ∀ e, passedInOf m.annots p.name ≠ some (.error e))
+    (htype : ∀ p ∈ m.params, isContextType p.type = false → ∀ loc, passedInOf m.annots p.name = some (.ok loc) → typeOk env p loc = true)
+    (hcombo : comboOk (locsOf m m.params) = true) :
+    validateParams env m = some [] := by
+  unfold validateParams
+  exact validateParams_go_complete env m m.params [] hnoerr htype (by simpa using hcombo)
+
+/-- **the return-type pass accepts `error` and `(T, error)`** -/
+theorem validateReturns_complete (emb : List String) (m : Method)
+    (h : (∃ e, m.results = [e] ∧ isErrorType e = true) ∨ (∃ t e, m.results = [t, e] ∧ isErrorType e = true)) :
+    validateReturns emb m = [] := by
+  unfold validateReturns
+  rcases h with ⟨e, hr, he⟩ | ⟨t, e, hr, he⟩ <;> simp [hr, he]
+
+end Gleece.Validate
+
+namespace Gleece.Validate
+
+/-- **a route satisfying the rules is never rejected** (the whole receiver validator): no hard error and no
+    error-severity diagnostic, provided the annotations themselves are well-formed (`commonValidate` reports no error -
+    unknown annotation, missing value, unsupported verb …), the method is exported, its parameters suit their
+    locations, it returns `error` or `(T, error)`, it is secured when the enforce flag demands it, and it is well-linked -/
+theorem receiver_accepts (env : TypeEnv) (emb : List String) (enforce hasDefault : Bool) (ctrlAnnots : List Annot) (m : Method)
+    (hread : (enforce && (securityUnreadable ctrlAnnots || securityUnreadable m.annots)) = false)
+    (hcommon : hasError (commonValidate "route" m.annots) = false)
+    (hexp : isExportedName m.name = true)
+    (hnoerr : ∀ p ∈ m.params, isContextType p.type = false → ∀ e, passedInOf m.annots p.name ≠ some (.error e))
+    (htype : ∀ p ∈ m.params, isContextType p.type = false → ∀ loc, passedInOf m.annots p.name = some (.ok loc) → typeOk env p loc = true)
+    (hcombo : comboOk (locsOf m m.params) = true)
+    (hret : (∃ e, m.results = [e] ∧ isErrorType e = true) ∨ (∃ t e, m.results = [t, e] ∧ isErrorType e = true))
+    (hsec : enforce = false ∨ securityOf m.annots > 0 ∨ securityOf ctrlAnnots > 0 ∨ hasDefault = true)
+    (hlink : WellLinked (((ctrlAnnots.find? (·.name = "Route")).map (·.value)).getD "") m) :
+    ∃ ds, validateReceiver env emb enforce hasDefault ctrlAnnots m = some ds ∧ hasError ds = false := by
+  unfold validateReceiver
+  rw [hread]
+  simp only [Bool.false_eq_true, if_false]
+  rw [validateParams_complete env m hnoerr htype hcombo, validateReturns_complete emb m hret,
+    wellLinked_accepted _ m hlink]
+  have hs : validateSecurity enforce hasDefault ctrlAnnots m = [] := by
+    unfold validateSecurity
+    rcases hsec with h | h | h | h
+    · simp [h]
+    · cases enforce <;> simp [h]
+    · cases enforce <;> simp [h]
+    · cases enforce <;> simp [h]
+  rw [hs]
+  refine ⟨_, rfl, ?_⟩
+  simp only [hexp, if_true, List.append_nil, List.nil_append]
+  exact hcommon
+
+end Gleece.Validate
